@@ -440,6 +440,7 @@ func (p *postHandshake) processPostHandshakeMessages(ctx context.Context, conn C
 			// alert forever; the connection is over.
 			return dtlserrors.ErrUnexpectedPostHandshakeMessage
 		}
+		p.cache.Discard(item)
 	}
 
 	return dtlserrors.ErrHandshakeSequenceOverflow
